@@ -38,9 +38,10 @@ import types
 
 STREAMS = ['bytes-helpers', 'spec-table', 'scripted-exhaustive', 'scripted-random', 'scripted-boundary',
            'scripted-malformed', 'real-mechs', 'real-interleaved']
-THEOREMS = ['authenticated_only_after_accept', 'refines_spec_server', 'closes_exactly_when',
-            'no_line_processed_after_close', 'conforming_client_accepted', 'wrong_cookie_never_accepted',
-            'line_partition_independent']
+THEOREMS = ['authenticated_only_after_accept', 'refines_spec_server', 'authenticated_iff_spec',
+            'mechanism_consulted_iff_table_asks', 'real_mechanisms_never_raise', 'closes_exactly_when',
+            'no_line_processed_after_close', 'conforming_client_accepted', 'conforming_client_accepted_from',
+            'wrong_cookie_never_accepted', 'cookie_accept_tied_to_challenge', 'line_partition_independent']
 TRUSTED_BASE = [
     'Python semantics mirrored by hand in Auth/ServerBytes.lean and validated only by the stream bytes-helpers: '
     'bytes.split(), bytes.strip(), bytes.split(b" ", 1), bytes.split(b"\\r\\n"), binascii.hexlify/unhexlify, '
